@@ -724,7 +724,7 @@ Qed.
 (* ------------------------------------------------------------------ witnesses *)
 Definition fmt32 : pixfmt := mkfmt 4 255 255 255 0 8 16.
 Definition wit_fb : fb := mkfb 3 2 [[1; 2; 3]; [4; 5; 6]].
-Definition wit_cur : cursor := mkcur 2 2 0 0 None [192; 192] (Some [7; 8; 9; 10]) None false (0, 0, 0) (0, 0, 0).
+Definition wit_cur : cursor := mkcur 2 2 0 0 None [192; 192] (Some [7; 8; 9; 10]) None false (0, 0, 0) (0, 0, 0) false.
 
 (* the code as it is never paints column W-1 / row H-1 (DESIGN.md section 7, F15) *)
 Lemma last_column_refuted :
